@@ -1,10 +1,13 @@
 //! Worker thread logic for executing tasks from queues.
 
 use std::collections::VecDeque;
+#[cfg(not(folo_verif))]
 use std::sync::Mutex;
 use std::sync::atomic::{self, AtomicBool, Ordering};
 
 use crate::{ErasedTaskHandle, NEVER_POISONED};
+#[cfg(folo_verif)]
+use crate::verif_hook::Mutex;
 
 /// What one pass of a worker's main loop accomplished, and thus what the loop does next.
 ///
@@ -53,16 +56,12 @@ impl<'a> WorkerCore<'a> {
             return IterationResult::Shutdown;
         }
 
-        #[cfg(folo_verif)]
-        crate::verif_hook::point("worker:urgent.pop");
         let task = self.urgent_queue.lock().expect(NEVER_POISONED).pop_front();
         if let Some(mut task) = task {
             task.as_pin_mut().call();
             return IterationResult::ExecutedUrgent;
         }
 
-        #[cfg(folo_verif)]
-        crate::verif_hook::point("worker:regular.pop");
         let task = self.regular_queue.lock().expect(NEVER_POISONED).pop_front();
         if let Some(mut task) = task {
             task.as_pin_mut().call();
